@@ -20,7 +20,8 @@ from .. import seq_util as u
 
 FAST = {"JAVA_TOOL_OPTIONS": "-Xss64m -XX:TieredStopAtLevel=1"}     # short TLC runs: no C2 compilation (3x less CPU)
 PROP = "C19"
-DEVS = [("PairTable", "Final"), ("TermNoSwap", "Final"), ("Direction", "Final"), ("NoLabelCopy", "Final")]
+DEVS = [("PairTable", "Final"), ("TermNoSwap", "Final"), ("Direction", "Final"), ("NoLabelCopy", "Final"),
+        ("StartByKey", "Final"), ("WalkToResid1", "Final")]
 
 
 def key(inp):
@@ -46,20 +47,30 @@ def _check_result(r, case):
     why = u.diff(r["g"], u.norm_expected(case["g"]))
     if why:
         return why
+    if case["inp"].get("rounds", 1) == 2 and "g2" in r:
+        why = u.diff(r["g2"], u.norm_expected(case["g2"]))
+        if why:
+            return "completing the added strand again in place (same molecule): " + why
     why = u.diff(r["back"], u.norm_expected(case["back"]))
     if why:
-        return "completing the added strand again does not give back the first strand: " + why
+        return "completing a fresh copy of the added strand does not give back the first strand: " + why
     return None
 
 
 def _run_case(case, wd, stem, via_file, via_gp, ff):
     from polyply.src.meta_molecule import MetaMolecule
     inp = case["inp"]
-    r = u.run_dsdna(inp)
+    r = u.run_dsdna(inp, wd, stem)
     why = _check_result(r, case)
     if why:
         return why, r, "complement_dsDNA(%s)" % json.dumps(inp)
-    plain = (not case["rej"]) and inp["tag"] == 0 and len(inp["names"]) >= 2
+    if via_gp and not case["rej"] and not u.plain_keys(inp):
+        # strands with 1-based / sparse / shuffled node keys or residue ids from 11: the .json through gen_params -dsdna
+        g = u.run_gen_params(wd, stem, ff, seq_file=u.render_strand_json(inp, wd, stem), dsdna=True, base=inp["first"] - 1)
+        why = ("raised %s" % g["exc"]) if "exc" in g else u.diff(g["g"], u.norm_expected(case["g"]))
+        if why:
+            return "gen_params -dsdna (.json): " + why, g, json.dumps(inp)
+    plain = (not case["rej"]) and inp["tag"] == 0 and len(inp["names"]) >= 2 and u.plain_keys(inp)
     if via_file and plain:
         # the same strand read from a real file: parser -> MetaMolecule -> complement_dsDNA
         finp = _file_input(inp)
@@ -88,6 +99,11 @@ def _run_case(case, wd, stem, via_file, via_gp, ff):
     return None, r, ""
 
 
+def _top_has_max_key(inp):
+    keys = list(u._seq(inp.get("keys", [])))
+    return not keys or keys[-1] == max(keys)
+
+
 def _replay_chunk(arg):
     ci, cases, wd, ff, gp_every = arg
     u.setenv()
@@ -96,9 +112,9 @@ def _replay_chunk(arg):
     for k, case in cases:
         via_gp = gp_every > 0 and k % gp_every == 0
         why, obs, text = _run_case(case, wd, "d%d" % ci, True, via_gp, ff)
-        plain = (not case["rej"]) and case["inp"]["tag"] == 0 and len(case["inp"]["names"]) >= 2
+        plain = (not case["rej"]) and case["inp"]["tag"] == 0 and len(case["inp"]["names"]) >= 2 and u.plain_keys(case["inp"])
         nfile += plain
-        ngp += plain and via_gp
+        ngp += (plain and via_gp) or bool(via_gp and not case["rej"] and not u.plain_keys(case["inp"]))
         if why:
             bad.append((k, why, obs, text))
     return bad, len(cases), nfile, ngp
@@ -127,6 +143,14 @@ def _replay(ck, cases, gp_every, label="dsdna"):
     ck.extra["completed_from_rendered_files"] = ck.extra.get("completed_from_rendered_files", 0) + nfile
     ck.extra["through_gen_params_dsdna"] = ck.extra.get("through_gen_params_dsdna", 0) + ngp
     ck.extra["rejection_cases"] = sum(1 for x in cases if x["rej"])
+    ck.extra["instance_corners"] = {
+        "node_keys_not_0_based": sum(1 for x in cases if list(x["inp"]["keys"]) != list(range(len(x["inp"]["names"])))),
+        "residue_ids_not_from_1": sum(1 for x in cases if x["inp"]["first"] != 1),
+        "circular_not_from_1": sum(1 for x in cases if x["inp"]["first"] != 1 and x["inp"]["circ"]),
+        "completed_twice_in_place": sum(1 for x in cases if x["inp"]["rounds"] == 2 and not x["rej"]),
+        "largest_key_not_on_3prime_residue": sum(1 for x in cases if not _top_has_max_key(x["inp"]))}
+    if not all(ck.extra["instance_corners"].values()):
+        raise c.MachineryError("vacuous instance: %s" % ck.extra["instance_corners"])
 
 
 # ------------------------------------------------------------------ I -> S
@@ -144,23 +168,43 @@ def gen_inputs(ntr, sd, big):
             names[-1] += "3"
         if t % 7 == 3:
             names[rng.randrange(n)] = rng.choice(["DX", "U", "DA53", "ALA", "da", "DT35"])
-        out.append({"fam": "dsdna", "names": names, "circ": circ, "tag": rng.randint(1, n - 1) if rng.random() < 0.4 else 0})
+        kind = rng.choice(["zero", "zero", "one", "gap", "shuftop", "shuf"])
+        if kind == "zero":
+            keys = list(range(n))
+        elif kind == "one":
+            keys = list(range(1, n + 1))
+        else:
+            keys = sorted(rng.sample(range(0, 3 * n + 5), n))
+            if kind != "gap":
+                top = keys[-1]
+                rest = keys[:-1]
+                rng.shuffle(rest)
+                keys = rest + [top]
+                if kind == "shuf":                   # anything goes: the largest key may sit anywhere
+                    rng.shuffle(keys)
+        first = 1 if kind == "zero" else rng.choice([1, 1, 2, 11, rng.randint(3, 500)])
+        inp = {"fam": "dsdna", "names": names, "circ": circ, "tag": rng.randint(1, n - 1) if rng.random() < 0.4 else 0,
+               "keys": keys, "first": first, "rounds": 2}
+        out.append(inp)
     return out
 
 
-def _record_chunk(inps):
+def _record_chunk(arg):
+    ci, inps, wd = arg
     u.setenv()
     out = []
     for inp in inps:
-        r = u.run_dsdna(inp)
-        ev = {"act": "Result", "rej": bool(r["rej"]), "g": u.obs_for_trace(r.get("g")), "back": u.obs_for_trace(r.get("back"))}
+        r = u.run_dsdna(inp, wd, "r%d" % ci)
+        ev = {"act": "Result", "rej": bool(r["rej"]), "g": u.obs_for_trace(r.get("g")), "back": u.obs_for_trace(r.get("back")),
+              "g2": u.obs_for_trace(r.get("g2"))}
         out.append({"inp": inp, "events": [ev]})
     return out
 
 
 def record(inps):
     traces = []
-    for part in c.pmap(_record_chunk, c.chunks(inps, c.NPROC * 2)):
+    wd = c.workdir(PROP, "rec")
+    for part in c.pmap(_record_chunk, [(i, ch, str(wd)) for i, ch in enumerate(c.chunks(inps, c.NPROC * 2))]):
         traces.extend(part)
     return traces
 
@@ -171,16 +215,18 @@ def validate_batches(ck, traces, name, size=150):
     from concurrent.futures import ThreadPoolExecutor
     with ThreadPoolExecutor(max(1, min(4, c.NPROC // 2))) as ex:
         results = list(ex.map(lambda bp: u.validate(bp[1], "%s_%d" % (name, bp[0]), prop=PROP), enumerate(parts)))
+    bad = []
     for part, (res, rejected) in zip(parts, results):
         ck.add_tlc(res)
         ck.traces += len(part) - len(rejected)
         for tid, matched in sorted(rejected.items()):
-            nbad += 1
-            tr = part[tid - 1]
-            tr["_rejected"] = True
-            ck.violation({"kind": "I->S trace", "trace": {"inp": tr["inp"], "events": tr["events"]}},
-                         what="completion of a %d-residue %s strand recorded from complement_dsDNA rejected by SeqInput (input %s...)" % (
-                             len(tr["inp"]["names"]), "circular" if tr["inp"]["circ"] else "linear", json.dumps(tr["inp"])[:200]))
+            part[tid - 1]["_rejected"] = True
+            bad.append(part[tid - 1])
+    for tr in bad:
+        nbad += 1
+        ck.violation({"kind": "I->S trace", "trace": {"inp": tr["inp"], "events": tr["events"]}},
+                     what="completion of a %d-residue %s strand recorded from complement_dsDNA rejected by SeqInput (input %s...)" % (
+                         len(tr["inp"]["names"]), "circular" if tr["inp"]["circ"] else "linear", json.dumps(tr["inp"])[:200]))
     return nbad
 
 
@@ -214,10 +260,12 @@ def run(tier):
                "linear with 5'/3' terminal names, circular (n >= 3), each also with one labelled backbone edge (n <= 4/5), and every strand "
                "of length <= 3 with one of 4 unknown names at every position; each is completed by the real complement_dsDNA (directly, from "
                "a rendered .ig/.fasta file, a subset through gen_params -dsdna) and the added strand is completed once more; a case is distinct "
-               "by its abstract input. I->S: seeded random strands of 6-200 (thorough -600) residues, linear / circular / labelled / with an "
+               "by its abstract input; strands of length <= 4 also with 1-based / sparse / shuffled node keys (largest key on or off the 3' residue) "
+               "and residue ids from 11, every accepted strand is completed a second time in place. I->S: seeded random strands of 6-200 (thorough -600) residues, linear / circular / labelled / with an "
                "unknown name, judged by TLC")
-    ck.assumptions = ["strands are given as every reader of polyply produces them (nodes and adjacency in ascending residue order); "
-                      "complement_dsDNA's traversal depends on the adjacency order of hand-built graphs, which no input file can produce",
+    ck.assumptions = ["strands are given as the readers of polyply produce them: 0-based strands directly, every other choice of node keys "
+                      "(1-based, sparse, in any order against the residue ids) and of the first residue id through a rendered .json file; "
+                      "residue ids of a strand are consecutive",
                       "rejection = IOError or KeyError raised by complement_dsDNA (the code raises KeyError when the last residue is unknown)",
                       "a one-residue strand is given with an explicit known name (DA, DA5, DA3 ...); the file readers name it DA53, which is rejected",
                       "trusted: TLC, the rendering and projection in harness/seq_util.py, networkx"]
